@@ -176,15 +176,15 @@ def snip_print(s):
 
 
 CHECK = (
-    "def same(u, t):\n"
+    "def same(u, t, tol=1e-12):\n"
     "    v = Unit(t)\n"
     "    f = lambda a, b: a == b or (math.isnan(a) and math.isnan(b)) or math.isclose(a, b, rel_tol=1e-12)\n"
     "    assert v.dimensions == u.dimensions and f(float(v.base_offset), float(u.base_offset)), (u, t, v)\n"
     "    ok = u.base_value == 0 or 1e-290 < abs(u.base_value) < 1e290\n"
     "    logs = [float(p) * math.log10(abs(float(Unit(b).base_value))) for b, p in u.expr.as_coeff_Mul()[1].as_powers_dict().items() if b.is_Symbol and float(Unit(b).base_value) != 0]\n"
     "    ok = ok and sum(x for x in logs if x > 0) < 290 and sum(x for x in logs if x < 0) > -290\n"
-    "    if ok:\n"
-    "        assert f(float(v.base_value), float(u.base_value)) and (math.isnan(u.base_value) or v == u), (u, t, v)\n"
+    "    if ok and tol is not None:\n"
+    "        assert (f(float(v.base_value), float(u.base_value)) or math.isclose(float(v.base_value), float(u.base_value), rel_tol=tol)) and (math.isnan(u.base_value) or v == u), (u, t, v)\n"
     "    import sympy\n"
     "    if u.expr == 1 or not any(f.is_number for f in sympy.Mul.make_args(u.expr)):\n"
     "        assert v.expr == u.expr and hash(v) == hash(u), (u.expr, t, v.expr)\n"
@@ -227,8 +227,8 @@ def arith_py(prog):
     return "\n".join(lines) + "\n"
 
 
-def snip_reparse_arith(prog, which):
-    return PRE + CHECK + arith_py(prog) + f"same(u, {which}(u))\n"
+def snip_reparse_arith(prog, which, tol=1e-12):
+    return PRE + CHECK + arith_py(prog) + f"same(u, {which}(u), {tol!r})\n"
 
 
 def snip_spell(variants):
@@ -927,7 +927,7 @@ def run(tier, seed):
             if v != "same":
                 how = v if v.startswith("raises") else "differs"
                 chk.fail(f"reparse|{which}|{how}|{rep['kind']}", f"Unit({which}(u)) for u built by {prog} [{rep[which]!r}]: {v}",
-                         {"python": snip_reparse_arith(prog, which), "prog": prog})
+                         {"python": snip_reparse_arith(prog, which, rep.get("tol", 1e-12)), "prog": prog})
         if rep["expr"] is None:
             chk.count("arith:float-or-irrational-coefficient(model skipped)")
             continue
